@@ -60,7 +60,11 @@ func (c *checker) sample(e *sim.Ev) {
 		if n := len(s.notes); n > 0 {
 			last = s.notes[n-1]
 		}
-		if e.X == "final" || e.X == "quiet" {
+		if (e.X == "final" || e.X == "quiet") && len(s.notes) < s.enters+s.exits {
+			// raft is still trying to hand a notification to a consumer that has not taken it yet
+			// (it blocks on NotifyCh by design): the server is not at rest as far as C18 goes
+			c.cov("rest-point-notification-pending")
+		} else if e.X == "final" || e.X == "quiet" {
 			c.cov("rest-point")
 			if last != isLeader {
 				c.violate("C18", "notify-disagrees-at-rest", e.Seq, "%s/%d at rest: State()==Leader is %v but the last NotifyCh value is %v (%d messages)", e.S, e.Ep, isLeader, last, len(s.notes))
